@@ -40,7 +40,8 @@ def random_domains(rng, gd):
             doms.append({"population": "pi*", "transport": [], "policy": []})
             continue
         t = rng.sample(nodes, rng.choice([0, 1, 1, 2]) if len(nodes) >= 2 else rng.choice([0, 1]))
-        z = rng.sample(nodes, 1) if rng.random() < 0.3 else []
+        # policy sets of size 0..3 (several policy variables in one domain: each one alone can spoil a district)
+        z = rng.sample(nodes, min(len(nodes), rng.choice([1, 1, 2, 2, 3]))) if rng.random() < 0.35 else []
         doms.append({"population": f"π{i + 1}", "transport": sorted(t), "policy": sorted(z)})
     return doms
 
@@ -64,7 +65,10 @@ def build_domain(gd, d, rng):
         g.add_directed_edge(Variable("T_" + t), Variable(t))
     topo = c17.random_topo(RG.from_nx(g), rng)
     pop = Variable(d["population"])
-    return (g, topo), ({Variable(z) for z in Z}, PP[pop]([Variable(n) for n in sorted(gd["nodes"])]))
+    zs = [Variable(z) for z in sorted(Z)]
+    form = sum(map(ord, "".join(sorted(Z)) + d["population"])) % 3  # the collection the policy variables come in
+    zcol = set(zs) if form == 0 else (zs if form == 1 else zs[::-1])
+    return (g, topo), (zcol, PP[pop]([Variable(n) for n in sorted(gd["nodes"])]))
 
 
 def run_case(ctx, gd, doms, out, cond, rng):
@@ -113,6 +117,10 @@ def run_shard(ctx):
             if sp is None:
                 continue
             out, cond, cls = sp
+            if cond and rng.random() < 0.15:
+                # an outcome that repeats a condition (same variable, same value): P(y, x | x) = P(y | x)
+                out = out + [list(rng.choice(cond))]
+                cls = cls + "+outcome-repeats-condition"
         else:
             out, cls = gev.random_event(rng, gd)
             cond = []
